@@ -290,6 +290,24 @@ pub fn check_line_case(c: &LineCase, st: &mut Stats) -> Check {
     }
     let items = file_items(file.as_bytes()).map_err(|p| Fail::new("parse-panic", p))?;
     let items: Vec<_> = items.into_iter().filter(|i| !matches!(i, Err(l) if strip_term(l).is_empty())).collect();
+    // the same record through the iterator adaptors (CRLF / blank lines between records must not shift them)
+    {
+        let raw = file_items(file.as_bytes()).map_err(|p| Fail::new("parse-panic", p))?;
+        let raw_idx = raw.iter().enumerate().filter(|(_, i)| !matches!(i, Err(l) if strip_term(l).is_empty())).nth(idx_before).map(|(i, _)| i);
+        if let Some(ri) = raw_idx {
+            st.evaluations += 1;
+            let via_nth = guarded(|| proguard::ProguardMapping::new(file.as_bytes()).iter().nth(ri).map(|i| i.map_err(|e| e.line().to_vec()))).map_err(|p| Fail::new("parse-panic", p))?;
+            let via_skip = guarded(|| proguard::ProguardMapping::new(file.as_bytes()).iter().skip(ri).next().map(|i| i.map_err(|e| e.line().to_vec()))).map_err(|p| Fail::new("parse-panic", p))?;
+            for (how, got) in [("nth", via_nth), ("skip", via_skip)] {
+                match got {
+                    Some(Ok(r)) if want_matches(&want, &r) => {}
+                    other => {
+                        return Err(Fail::new("wrong-record-via-adaptor", format!("line {text:?} embedded in {:?}: iter().{how}({ri}) gives {other:?}, expected {want:?}", show_bytes(file.as_bytes()))));
+                    }
+                }
+            }
+        }
+    }
     match items.get(idx_before) {
         Some(Ok(r)) if want_matches(&want, r) => {}
         other => {
